@@ -12,6 +12,7 @@ import numpy as onp
 from flax.core import FrozenDict
 
 from rex import base, utils
+from rex import _verif  # verification hooks; no-ops unless REX_VERIF=1
 from rex.constants import Async, Clock, Jitter, LogLevel, RealTimeFactor, Scheduling
 from rex.node import BaseNode, Connection
 
@@ -121,11 +122,16 @@ class _AsyncNodeWrapper:
     def _submit(self, fn, *args, stopping: bool = False, **kwargs):
         with self._lock:
             if self._state in [Async.READY, Async.STARTING, Async.READY_TO_START, Async.RUNNING] or stopping:
+                if _verif.ENABLED:
+                    fn = _verif.wrap_task(self, fn)
+                    _verif.gate("submit", owner=self, fn=fn.__name__)
                 f = self._executor.submit(fn, *args, **kwargs)
                 self._q_task.append((f, fn, args, kwargs))
                 f.add_done_callback(self._done_callback)
             else:
                 self.log("SKIPPED", fn.__name__, log_level=LogLevel.DEBUG)
+                if _verif.ENABLED:
+                    _verif.gate("refused", owner=self, fn=fn.__name__)
                 f = Future()
                 f.cancel()
         return f
@@ -412,7 +418,11 @@ class _AsyncNodeWrapper:
             # self.output.stop()
 
             # Stop all channels to receive all sent messages from their connected outputs
+            if _verif.ENABLED:
+                _verif.gate("block_enter", owner=self, what="inputs_stop")
             [i.stop().result(timeout=timeout) for i in self.inputs.values()]
+            if _verif.ENABLED:
+                _verif.gate("block_exit", owner=self, what="inputs_stop")
 
             # Run the stop function of the node
             success = self.node.stop()
@@ -864,11 +874,16 @@ class _AsyncConnectionWrapper:
     def _submit(self, fn, *args, stopping: bool = False, **kwargs):
         with self._lock:
             if self._state in [Async.READY, Async.RUNNING] or stopping:
+                if _verif.ENABLED:
+                    fn = _verif.wrap_task(self, fn)
+                    _verif.gate("submit", owner=self, fn=fn.__name__)
                 f = self._executor.submit(fn, *args, **kwargs)
                 self._q_task.append((f, fn, args, kwargs))
                 f.add_done_callback(self._done_callback)
             else:
                 self.log("SKIPPED", fn.__name__, log_level=LogLevel.DEBUG)
+                if _verif.ENABLED:
+                    _verif.gate("refused", owner=self, fn=fn.__name__)
                 f = Future()
                 f.cancel()
         return f
@@ -1305,7 +1320,11 @@ class _Synchronizer:
     def _async_step(self, step_state: base.StepState) -> Tuple[base.StepState, base.Output]:
         """Should not be jitted due to side-effects."""
         self._f_act = Future()
+        if _verif.ENABLED:
+            _verif.gate("sync_before_publish", owner=self._supervisor)
         self._q_act.append(self._f_act)
+        if _verif.ENABLED:
+            _verif.gate("sync_published", owner=self._supervisor)
 
         # Prepare new obs future
         _new_f_obs = Future()
@@ -1315,6 +1334,8 @@ class _Synchronizer:
         # print(f"[SET] _step: seq={step_state.seq}, ts={step_state.ts:.2f}")
         self._f_obs.set_result(step_state)
         self._f_obs = _new_f_obs
+        if _verif.ENABLED:
+            _verif.gate("sync_obs_set", owner=self._supervisor)
 
         # If the supervisor is no longer running, stop() may already have looked for a pending action future
         # (before ours was published) and will then never cancel it. stop() flips the state before it looks.
@@ -1324,13 +1345,19 @@ class _Synchronizer:
         # Wait for action future's result to be set with action
         if not self._must_reset:
             try:
+                if _verif.ENABLED:
+                    _verif.gate("block_enter", owner=self._supervisor, what="action")
                 step_state, output = self._f_act.result()
                 # print(f"[GET] _step: seq={step_state.seq}, ts={step_state.ts:.2f}")
+                if _verif.ENABLED:
+                    _verif.gate("block_exit", owner=self._supervisor, what="action")
                 self._q_act.popleft()
                 return step_state, output
             except CancelledError:  # If cancelled is None, we are going to reset
                 self._q_act.popleft()
                 self._must_reset = True
+        if _verif.ENABLED:
+            _verif.gate("block_exit", owner=self._supervisor, what="action_skipped")
         self._skipped.increment()  # Increment skipped steps
         return None, self._skipped  # Do not return anything if we must reset
 
@@ -1602,6 +1629,8 @@ class AsyncGraph:
 
         # Stop all nodes
         fs = [n._stop(timeout=timeout) for n in self._async_nodes.values()]
+        if _verif.ENABLED:
+            _verif.gate("stop_flipped", owner=self)
 
         # Initiate stop (this unblocks the root's step, that is waiting for an action).
         try:
@@ -1610,6 +1639,8 @@ class AsyncGraph:
             pass
 
         # Wait for all nodes to stop
+        if _verif.ENABLED:
+            _verif.gate("stop_cancelled", owner=self)
         [f.result() for f in fs]  # Wait for all nodes to stop
 
         # Toggle
@@ -1621,6 +1652,8 @@ class AsyncGraph:
         Internal use only. Use reset(), step(), run(), or rollout() instead.
         """
         # Retrieve obs (waits for graph until supervisor to finish)
+        if _verif.ENABLED:
+            _verif.gate("user_wait_obs", owner=self)
         next_step_state = self._synchronizer.observation.popleft().result()
         # print(f"[GET] run_until_root: seq={next_step_state.seq}, ts={next_step_state.ts:.2f}")
         self._initial_step = False
